@@ -186,9 +186,12 @@ func cmdRun(args []string) int {
 		return 3
 	}
 
-	work := filepath.Join(hm, "work", id)
+	// a scratch directory of this run only (two runs of one property may be alive at once, e.g. a check against a scratch copy of
+	// the repository next to a thorough run): journals, stderr files and race detector logs must not mix
+	work := filepath.Join(hm, "work", fmt.Sprintf("%s.%d", id, os.Getpid()))
 	os.RemoveAll(work)
 	os.MkdirAll(work, 0o755)
+	defer os.RemoveAll(work)
 	os.MkdirAll(filepath.Join(hm, "evidence"), 0o755)
 	if old, _ := filepath.Glob(filepath.Join(hm, "replays", id+"-*.json")); len(old) > 0 {
 		for _, f := range old {
